@@ -1,6 +1,7 @@
 package osutil
 
 import (
+	"errors"
 	"io"
 	"os"
 )
@@ -18,6 +19,13 @@ func CopyFile(srcPath, destPath string) (int64, error) {
 		return 0, err
 	}
 	defer src.Close()
+
+	// creating the target truncates it: refuse if it is the source itself (same path, symlink or hard link)
+	if srcInfo, err := src.Stat(); err != nil {
+		return 0, err
+	} else if destInfo, err := os.Stat(destPath); err == nil && os.SameFile(srcInfo, destInfo) {
+		return 0, errors.New("osutil: CopyFile source and target are the same file: " + destPath)
+	}
 
 	dest, err := os.Create(destPath)
 	if err != nil {
